@@ -37,6 +37,8 @@ EXPRS = [
     'Some(1).or_throw(2)', 'None.or_throw()', 'Err("bad").or_throw()', 'Some(1).or_value()', '[1].first(1)', '[1].enumerate(1)', '[3].index_of()',
     '(5)(1)', 'two(1)', 'two(1, 2, 3)', 'typed("a")', 'typed(1, 2)', 'badret()', '(fun(a) { a })(1, 2)', '(fun(a: Int) { a })("s")',
     '(fun(): Int { "s" })()', 'Some()', 'Some(1, 2)', 'Ok()', 'Col(1)',
+    # generic functions and methods: failed parameter / return checks whose hints mention the type parameter
+    'gwrap(2)', 'gpair(1)', 'gopt("s")', 'gparam(1, "s")', 'gnested([1])', 'Pt{ x: 1 }.gmeth(3)', 'gbad(1)',
     'Dict[1 => 2]', 'Nosuch{ x: 1 }', 'Pt{ y: 1 }', 'Pt{ x: 1, x: 2 }', 'Pt{ x: 1 }.y', '(1).x', '"a".nosuch', 'fs::nosuch', 'Pt{ x: "s" }',
     'match 5 { Some(x) => 1 }', 'match None { Some(x) => 1 }', 'match Red { Blue => 1 }', 'match Some(1) { Some((a, b)) => 1, None => 2 }',
     'match Some((1, 2, 3)) { Some((a, b)) => 1, None => 2 }', 'match 1 { nosuch => 2 }', 'match Some(1) { two => 2 }',
@@ -49,7 +51,10 @@ STMTS = [
     'let f = 5 f()', 'let t = (1, 2) t.nosuch',
 ]
 SETUP = ('fun two(a, b) { a }\nfun typed(x: Int): Int { x }\nfun badret(): Int { "s" }\n'
-         'struct Pt { x: Int }\nenum Col { Red, Blue }\n')
+         'struct Pt { x: Int }\nenum Col { Red, Blue }\n'
+         'fun gwrap<T>(x: T): List<T> { 1 }\nfun gpair<T>(x: T): (T, T) { (x, "no", x) }\nfun gopt<T>(x: T): Option<T> { x }\n'
+         'fun gparam<T>(x: T, y: List<T>): T { x }\nfun gnested<T>(xs: List<T>): List<List<T>> { xs }\n'
+         'method gmeth<T>(this: Pt, v: T): List<T> { v }\nfun gbad<T>(x: T): Nosuch<T> { x }\n')
 CONTEXTS = [
     ("top", "%s", True),
     ("list", "let v = [1, %s, 3]", False),
